@@ -60,6 +60,7 @@ def build_ref(pool: list, op: list) -> B.Node:
 
 class C01(Check):
     PROP = "C01"
+    CRASH_ORACLE = "C01.selfcheck"
     WORLD = "V"
     RULE = ("each run = one operation sequence (30-60 ops) over a growing pool of BitLengthSets: new leaves, + / concatenate / "
             "radd, | / unite / ror, repeat(k), repeat_range(k), pad_to_alignment(a) applied to pool members (so operands are shared "
